@@ -7,5 +7,6 @@ CONSTANTS
   WR <- Write
   TD <- ToDec
   NT <- NumText
+  NTL <- NumTextLoc
 INVARIANTS LawUtf8RoundTrip LawUtf8Shape LawUtf8Truncated LawUtf8Pairs
 CHECK_DEADLOCK FALSE
